@@ -1,6 +1,7 @@
 """C16 - authenticated and authorised before any effect (exhaustive)."""
 import json
 import os
+import time
 
 from pv import dbdump, world
 from pv.client import Req
@@ -203,6 +204,17 @@ def run_shard(spec, res):
                                       group='oslo_policy')
             ppolicy.reset()
             ppolicy.init(svc.app.conf)
+
+        edits = [0]
+
+        def edit_policy(rules):
+            # as an operator would: rewrite the file in place, nothing else
+            path = os.path.join(svc.app.own_dir, 'policy.yaml')
+            with open(path, 'w') as f:
+                json.dump(rules, f)
+            edits[0] += 1
+            t = time.time() + 5 * edits[0]
+            os.utime(path, (t, t))
 
         if spec['part'] == 'default':
             for op in oplist:
@@ -445,6 +457,44 @@ def run_shard(spec, res):
                                     '%s %s as %s under {%s: %r}' % (
                                         op[0], op[1], c[0], rule, check),
                                     resp, d0, after, stmts, wit)
+                # the same override REMOVED from the policy file of the
+                # running service (no restart: the file's mtime changes and
+                # the enforcer re-reads it): the documented default is back
+                tested = sorted(op for op in covered if op in ops)
+                if not tested:
+                    continue
+                op = tested[0]
+                for variant, check, caller in (('open', '@', roleless),
+                                               ('closed', '!', admin)):
+                    c = svc_caller if (variant == 'closed' and op == (
+                        'POST', '/reshaper')) else caller
+                    set_policy({rule: check})
+                    probe(ops[op], c)
+                    other = [r_ for r_ in rules if r_ != rule]
+                    edit_policy({other[0]: check} if other and
+                                variant == 'open' else {})
+                    r, resp, after, stmts = probe(ops[op], c)
+                    res.count('requests')
+                    res.count('live_edit_probes')
+                    res.seen('%s %s' % op, c[0], 'removed %s=%s' % (rule,
+                                                                   check))
+                    wit = {'request': r.brief(), 'response': resp.brief(),
+                           'policy_before': {rule: check},
+                           'policy_now': 'override removed (file edited, '
+                                         'no restart)', 'caller': c[0]}
+                    tail = '%s %s|removed-%s' % (op[0], op[1], variant)
+                    if variant == 'open':
+                        _judge_denied(
+                            res, tail + '|' + c[0],
+                            '%s %s as %s after {%s: %r} was removed' % (
+                                op[0], op[1], c[0], rule, check),
+                            resp, d0, after, stmts, wit)
+                    elif not 200 <= resp.status < 300:
+                        res.violation(
+                            'C16|removed-override-still-denies|%s' % tail,
+                            '%s %s as %s answered %d after {%s: %r} was '
+                            'removed' % (op[0], op[1], c[0], resp.status,
+                                         rule, check), wit)
             set_policy({})
             res.sample({'rule': mine[0] if mine else None,
                         'variants': ['@ with role-less caller',
